@@ -11,6 +11,8 @@ import MirVerif.Model.PPMacroUnit
   mirdrv_c09 expr              one expression (token list) per line →
                                `<c11> <c2m applied> <minimal extra fix mask | ->`
   mirdrv_c09 exprmask <mask>   one expression per line → result of `c2mEvalG mask`
+  mirdrv_c09 strings           one hex string s per line → S stringify s / D destringifyC (stringify s) /
+                               R destringifyC s / F destringifyFixed (stringify s)
   results are  v<s|u><hex64> | divzero | undef | parseerr
 -/
 open MirVerif.PP
@@ -123,6 +125,18 @@ partial def exprLoop (h : IO.FS.Stream) (f : Expr → String) : IO Unit := do
   | none => IO.println "parseerr"
   exprLoop h f
 
+def hexOfChars (cs : List Char) : String := let r := tohex (String.ofList cs); if r == "" then "-" else r
+
+partial def strLoop (h : IO.FS.Stream) : IO Unit := do
+  let line ← h.getLine
+  if line.isEmpty then return ()
+  let s := (unhex line.trimAscii.toString).toList
+  IO.println s!"S {hexOfChars (stringify s)}"
+  IO.println s!"D {hexOfChars (destringifyC (stringify s))}"
+  IO.println s!"R {hexOfChars (destringifyC s)}"
+  IO.println s!"F {hexOfChars (destringifyFixed (stringify s))}"
+  strLoop h
+
 def main (args : List String) : IO Unit := do
   let h ← IO.getStdin
   match args with
@@ -136,5 +150,6 @@ def main (args : List String) : IO Unit := do
         | none => "-"
       s!"{showRes (c11Eval e)} {showRes (c2mEval e)} {cls}")
   | ["exprmask", m] => exprLoop h (fun e => showRes (c2mEvalG (maskToFixes m.toNat!) e))
+  | ["strings"] => strLoop h
   | ["applied"] => IO.println (fixesToMask appliedFixes)
   | _ => IO.eprintln "usage: mirdrv_c09 pp c11|c2m [mask] | expr | exprmask <mask> | applied"
